@@ -69,7 +69,7 @@ def reference_visible(names, handler, ignorepatt, hidden=(), sel="/t"):
 
 
 def _list(w, proto="gopher", sel="/t"):
-    r = w.serve(*rig.request(proto, sel))
+    r = w.serve(*rig.request(proto, sel or "/"))
     if r.internal_error:
         return r, None
     try:
@@ -78,23 +78,23 @@ def _list(w, proto="gopher", sel="/t"):
         return r, None
 
 
-BASES = ["t", "forms.ask", ".cache-2019", "deep/nest~/d"]
+BASES = ["t", "forms.ask", ".cache-2019", "deep/nest~/d", ""]  # "" = the document root itself
 
 
 def _check_dir(names, handler, extra_files=None, hidden=(), check_retrieval=True, all_perms=True, max_perms=None, base="t", must_list=(), must_not_list=()):
     """Build /t with `names`, list it under every permutation. -> list of (class, detail)"""
     global _perm, _perm_sel
     _patch()
-    _perm_sel = "/" + base
+    _perm_sel = "/" + base if base else ""
     spec = {}
     for n in names:
         spec[n] = {"inner.txt": b"i\n"} if n in DIRS else file_bytes(n)
     if extra_files:
         spec.update(extra_files)
     tree = spec
-    for comp in reversed(base.split("/")):
+    for comp in reversed([c for c in base.split("/") if c]):
         tree = {comp: tree}
-    sel = "/" + base
+    sel = "/" + base if base else ""
     w = rig.World(tree, handlers=("default" if handler == "umn" else DIRLIST), cachetime=0, tag="c07")
     bad = []
     nperm = 0
